@@ -14,6 +14,7 @@ RULE = ("all event sequences over the 18-event alphabet {valid/other-host/odd-fl
         "DPA, addressed/misaddressed application request, application answer, local stop, peer disconnect, idle timeout} "
         "to depth D (2 quick, 3 thorough) from each of the model states {awaiting CER/CEA, Open, Closing}, both roles, "
         "0/1/3 configured applications, plus random sequences of length <= 10; sequences stop when the model reaches Closed; "
+        "plus the capabilities exchange itself under random-walk schedules with line-level preemption (a valid exchange must open); "
         "oracle: reference transition model compared at quiescent points; distinct = distinct (role, apps, event sequence); "
         "states/transitions = model (state, event) cells exercised")
 
@@ -137,10 +138,52 @@ def run_sequence(acc, case):
     acc.sample({"role": role, "apps": len(apps), "sequence": seq, "trace": [(t["event"], t["state_after"], [e[0] for e in t["emitted"]]) for t in trace]}, limit=3)
 
 
+def run_open_under_schedule(acc, case):
+    """The capabilities exchange itself, under randomised schedules with line-level preemption: a valid CEA/CER that
+    the scripted peer sends as early as it can must open the connection (the model's hard cell Wait -> Open)."""
+    role = case["role"]
+    sc = N.Scenario(seed=case["seed"], strategy="rw", p=case["p"], role=role, apps=case["apps"], lines=True, max_steps=500_000, wall_s=60)
+    wit = {"case": case}
+    from bromelia.statemachine import WaitConnAck
+    orig_ack = WaitConnAck.event_initiator_rcv_conn_ack
+    with sc:
+        if case.get("window") == "psm-parked-after-sending-cer":
+            # directed schedule: the state-machine task is descheduled right after it has sent the CER (as an OS may do)
+            # until the peer's CEA has been parsed into the receive queue, or 50 virtual ms at most
+            def parked(st):
+                orig_ack(st)
+                sc.sched.block_until(lambda: not st.association._recv_messages.empty(), 0.05, "window:after-cer")
+                acc.counters["window_psm_parked_after_cer"] += 1
+            WaitConnAck.event_initiator_rcv_conn_ack = parked
+        try:
+            ok = sc.open(timeout=8)
+            acc.counters["open_under_schedule"] += 1
+            if sc.sched.deaths:
+                d = sc.sched.deaths[0]
+                acc.violation("task-died:%s:%s:during-capabilities-exchange" % (d["task"].replace("client_", "").replace("server_", ""), d["type"]), d["traceback"][-300:], wit)
+            elif not ok:
+                acc.violation("valid-capabilities-exchange-does-not-open:%s" % role,
+                              "the peer completed a valid exchange but the node reports %s after 8 virtual seconds; consumed=%s tasks=%s" % (
+                                  sc.state(), sc.consumed[-4:], sc.sched.blocked_report()),
+                              dict(wit, schedule=sc.sched.schedule_hash(), choices=sc.sched.choices[:3000], transitions=sc.transitions))
+        except vsched.DeadlockError as ex:
+            acc.violation("deadlock-during-capabilities-exchange", "deadlock: %s" % ex, dict(wit, stacks=sc.sched.stacks()))
+        except vsched.StepBudget as ex:
+            acc.inconclusive.append("%s (case %r)" % (ex, case))
+        finally:
+            WaitConnAck.event_initiator_rcv_conn_ack = orig_ack
+        h = sc.sched.schedule_hash()
+    acc.evaluations += 1
+    acc.sigs.add(harness.sig_hash("open/%s/%s/%s" % (role, case.get("window"), h)))
+
+
 def run_batch(b):
     acc = harness.Acc()
     for case in b["cases"]:
-        run_sequence(acc, case)
+        if case.get("kind") == "open-sched":
+            run_open_under_schedule(acc, case)
+        else:
+            run_sequence(acc, case)
     return acc
 
 
@@ -166,6 +209,11 @@ def plan(tier, seed):
         seq = ["@open"] if rng.random() < 0.8 else []
         seq += [rng.choice(scen.EVENTS) for _ in range(rng.randrange(2, 10))]
         cases.append({"role": role, "apps": rng.choice([[], [16777251], [16777251, 4]]), "seq": seq, "seed": seed * 31 + i})
+    for i in range(160 if q else 12000):
+        role = rng.choice(["client", "server"])
+        cases.append({"kind": "open-sched", "role": role, "apps": rng.choice([[], [16777251]]),
+                      "seed": seed * 9973 + i, "p": rng.choice([0.02, 0.1, 0.3, 0.6]),
+                      "window": "psm-parked-after-sending-cer" if role == "client" and i % 3 == 0 else None})
     rng.shuffle(cases)
     return cases, depth
 
@@ -185,7 +233,7 @@ def main(tier, seed):
                            "round-robin scheduling: this property quantifies over histories, not schedules"],
                           t0, extra_cov={"states": len({c.split("|")[0] for c in cells}), "transitions": len(cells),
                                          "cells_exercised": cells, "exhaustive_depth": depth},
-                          exhaustive=True, require_counters=("events_applied", "hard_cells_judged", "h9_checked", "sequences_completed"))
+                          exhaustive=True, require_counters=("events_applied", "hard_cells_judged", "h9_checked", "sequences_completed", "open_under_schedule"))
 
 
 def replay(w):
